@@ -340,8 +340,11 @@ Lemma low_meas_good : forall q ip keep st m c st1,
 Proof.
   intros q ip keep st m c st1 H. unfold low_meas in H.
   destruct (qubit_id q st) as [id|e]; cbn [bind] in H; [|discriminate].
-  unfold take_m in H. destruct (first_false (l_mused st) 0) as [k|]; cbn [bind] in H; [|discriminate].
-  inversion H; subst. destruct ip, keep; unfold same_ap, deactivate; cbn; auto.
+  unfold take_m in H. destruct keep.
+  - destruct (first_false (orb_list (l_mused st) (l_mscr st)) 0) as [k|]; cbn [bind] in H; [|discriminate].
+    inversion H; subst. destruct ip; unfold same_ap, deactivate; cbn; auto.
+  - destruct (first_false (l_mused st) 0) as [k|]; cbn [bind] in H; [|discriminate].
+    inversion H; subst. destruct ip; unfold same_ap, deactivate; cbn; auto.
 Qed.
 
 Lemma low_meas_err : forall q ip keep st e,
@@ -349,8 +352,11 @@ Lemma low_meas_err : forall q ip keep st e,
 Proof.
   intros q ip keep st e H. unfold low_meas in H.
   unfold qubit_id in H. destruct (alook q (l_q st)); cbn [bind] in H.
-  - unfold take_m in H. destruct (first_false (l_mused st) 0); cbn [bind] in H; [discriminate|].
-    inversion H. discriminate.
+  - unfold take_m in H. destruct keep.
+    + destruct (first_false (orb_list (l_mused st) (l_mscr st)) 0); cbn [bind] in H; [discriminate|].
+      inversion H. discriminate.
+    + destruct (first_false (l_mused st) 0); cbn [bind] in H; [discriminate|].
+      inversion H. discriminate.
   - inversion H. discriminate.
 Qed.
 
@@ -377,7 +383,7 @@ Proof.
   induction n as [|n IH]; intros st i; cbn [epr_arrays_at]; [split; reflexivity|].
   destruct (IH (mkL (l_act st) (l_peak st) (l_mused st) (l_q st) (S (l_next st))
                     (l_decl st ++ [(l_next st, 2, if seq && Nat.eqb i 1 then Some [Some 0%Z; Some 0%Z] else None)])
-                    (l_ret st) (l_rf st) (l_lv st) ((l_next st, 2) :: l_len st)) (S i)) as [A B].
+                    (l_ret st) (l_rf st) (l_lv st) ((l_next st, 2) :: l_len st) (l_mscr st)) (S i)) as [A B].
   split; [rewrite A|rewrite B]; reflexivity.
 Qed.
 
